@@ -27,6 +27,7 @@ func VerifC08Crash() {
 	ws, hs := 0, 0  // the same two, as of the last completed metadata rename
 	crashed := false
 	snap := ""
+	hcAtCrash, wsAtCrash, hsAtCrash := 0, 0, 0
 	VerifCrashPoint = func(label string) {
 		verifFsHooked()
 		switch label {
@@ -40,6 +41,7 @@ func VerifC08Crash() {
 		if !crashed && verifIsMutation(label) && verifCrashHere(label) {
 			crashed = true
 			snap = verifSnapshotDir(dir)
+			hcAtCrash, wsAtCrash, hsAtCrash = hc, ws, hs
 			verifFreezeOthers()
 		}
 	}
@@ -74,11 +76,13 @@ func VerifC08Crash() {
 	if !crashed {
 		crashed = true
 		snap = verifSnapshotDir(dir)
+		hcAtCrash, wsAtCrash, hsAtCrash = hc, ws, hs
 		verifFreezeOthers()
 	}
-	hcAtCrash, wsAtCrash, hsAtCrash := hc, ws, hs
 	VerifCrashPoint = func(string) { verifFsHooked() }
 
+	// recovery must terminate: a queue spinning in its I/O loop is a hang
+	verifStepLimit(2000000)
 	q2 := NewDiskQueue("q", snap, maxBytes, syncEvery, time.Hour).(*DiskQueue)
 	var D [][]byte
 	for len(D) <= len(E)+1 {
@@ -98,5 +102,12 @@ func VerifC08Crash() {
 		ok = verifOr(ok, verifFlat(D) == verifFlat(E[i:j]))
 	}
 	verifAssert(ok, "recovered-run-is-contiguous-intact-and-within-bounds")
+	// the recovered queue is usable: one more message goes in and comes out, and it closes
+	extra := []byte{0x7e}
+	perr := q2.Put(extra)
+	verifAssert(perr == nil, "recovered-queue-accepts-put")
+	m2, ok2 := verifRecv(q2.ReadChan())
+	verifAssert(ok2 && string(m2) == string(extra), "recovered-queue-delivers-new-message")
+	verifAssert(q2.Close() == nil, "recovered-queue-closes")
 	verifCover("end")
 }
